@@ -162,11 +162,12 @@ def run_case(case):
     finally:
         SL.MAX_ITER = old_cap
     out["t"] = time.process_time() - t0
-    loops = {}
+    # SCF passes = executions of the outermost (pass) loop header of the scf_forwardN that ran
+    passes = 0
     for (f, fn, ln), n in h.counts.items():
-        if fn.startswith("scf_forward"):
-            loops[fn] = max(loops.get(fn, 0), n)
-    out["scf_passes"] = max(loops.values(), default=0)
+        if fn.startswith("scf_forward") and ln in SR.top_level_loops(SL.__file__, fn):
+            passes = max(passes, n)
+    out["scf_passes"] = passes
     out["sp2_max"] = h.max_per_call
     if out["status"] != "ok":
         return out
@@ -366,7 +367,7 @@ def _evaluate(chk, case, out, stats):
         stats["notconv_full_cap"] += 1
     bad = judge(case, out)
     # the cap is an environment answer: the SCF pass loop may not run past it
-    cap_bad = out["scf_passes"] > (case["cap"] + 2) * (4 if case["solver"] == "ksa" else 1)
+    cap_bad = out["scf_passes"] > case["cap"] + 2
     sig = ("ok", tuple(out["nc"]), tuple(sorted({b[1] for b in bad})), cap_bad)
     chk.case(k, nontrivial=nconv > 0, outcome=sig)
     for r, nc in zip(out["res"], out["nc"]):
@@ -437,7 +438,7 @@ def replay(payload):
     bad = judge(c, out)
     for i, name, v, t in bad:
         print(f"   molecule {i} ({c['batch'][i]}): {name} = {v:.3e} > {t:.3e}")
-    cap_bad = out["scf_passes"] > (c["cap"] + 2) * (4 if c["solver"] == "ksa" else 1)
+    cap_bad = out["scf_passes"] > c["cap"] + 2
     if cap_bad:
         print(f"   SCF pass loop executed {out['scf_passes']} times with cap {c['cap']}")
     return not bad and not cap_bad
